@@ -201,19 +201,20 @@ func oneMain(t *testing.T) {
 // replay files
 
 type replayFile struct {
-	Property  string           `json:"property"`
-	Class     string           `json:"class"`
-	Detail    string           `json:"detail"`
-	Scenario  string           `json:"scenario"`
-	Seed      uint64           `json:"seed"`
-	BaseSeed  uint64           `json:"base_seed"`
-	RunIndex  int              `json:"run_index"`
-	Decisions map[string][]int `json:"decisions"`
-	NDec      int              `json:"n_decisions"`
-	OrigNDec  int              `json:"n_decisions_before_minimisation"`
-	Hash      string           `json:"event_log_hash"`
-	Config    string           `json:"config"`
-	Trace     []string         `json:"trace_tail,omitempty"`
+	Property   string           `json:"property"`
+	Class      string           `json:"class"`
+	Detail     string           `json:"detail"`
+	Scenario   string           `json:"scenario"`
+	Seed       uint64           `json:"seed"`
+	BaseSeed   uint64           `json:"base_seed"`
+	RunIndex   int              `json:"run_index"`
+	Decisions  map[string][]int `json:"decisions"`
+	StepFactor int              `json:"step_factor,omitempty"`
+	NDec       int              `json:"n_decisions"`
+	OrigNDec   int              `json:"n_decisions_before_minimisation"`
+	Hash       string           `json:"event_log_hash"`
+	Config     string           `json:"config"`
+	Trace      []string         `json:"trace_tail,omitempty"`
 }
 
 func countDec(d map[string][]int) int {
@@ -265,7 +266,7 @@ func replayMain(t *testing.T) {
 		fmt.Printf("NOT-REPRODUCED property=%s class=%s got=%q\n%s\n", rf.Property, rf.Class, class, tailStr(buf.String(), 800))
 		os.Exit(3)
 	}
-	spec := RunSpec{Scenario: rf.Scenario, Prop: rf.Property, Seed: rf.Seed, Decisions: rf.Decisions, Trace: *fVerbose}
+	spec := RunSpec{Scenario: rf.Scenario, Prop: rf.Property, Seed: rf.Seed, Decisions: rf.Decisions, Trace: *fVerbose, StepFactor: rf.StepFactor}
 	res := Execute(t, spec)
 	if *fVerbose {
 		for _, l := range res.Trace {
